@@ -56,6 +56,7 @@ pub fn check_with(c: &Case, ctx: &mut Ctx, via_default: bool) -> Result<(), Fail
             fp.u(0xDEAD);
             ctx.label("reset_in_history");
         }
+        crate::tele::step(&mut ind, &c.cfg);
         let out = ind.next_scalar(x);
         fp.f(x);
         hist.push(x);
@@ -250,6 +251,9 @@ pub fn run(g: &mut Global) {
     // streams of 10 000 .. 20 000 inputs (hundreds of wrap-arounds); quick keeps the periods small
     let cap = g.tier.pick(48usize, 1024usize);
     g.random("long", g.tier.pick(64, 1000), &move || long_strategy(cap), &check);
+    // identity events (tele.rs): at one or two steps the instance is replaced by its clone, by a used instance
+    // (same or longer periods) that clone_from()s it, or by its serde round trip; nothing may change
+    g.random("events", g.tier.pick(12000, 100000), &move || crate::tele::wrap(strategy(tier)), &|t: &crate::tele::TCase<Case>, ctx: &mut Ctx| crate::tele::check_wrapped(t, ctx, t.case.xs.len(), t.case.cfg.n(), check));
     // cached-extreme bookkeeping at every ring phase (see hist::extreme_stress), periods from the structural list
     const XP: [usize; 16] = [2, 3, 5, 8, 31, 64, 65, 100, 127, 128, 129, 200, 256, 257, 511, 1025];
     let seedx = g.seed;
